@@ -277,11 +277,29 @@ class RemoveFront(_Opts, CartesianProductStrategy[WC, W]):
     """C(u v) = {u} x C(v) when no occurrence can start inside u; with split the atom u is
     cut once more (first letter | rest), with atom_last the factor C(v) comes first."""
 
-    OPTS = ("drop", "atom_last", "split")
+    OPTS = ("drop", "atom_last", "split", "swap")
 
-    def __init__(self, drop=False, atom_last=False, split=False, **kw):
+    def __init__(self, drop=False, atom_last=False, split=False, swap=False, **kw):
         self.drop, self.atom_last, self.split = bool(drop), bool(atom_last), bool(split)
+        # swap: the atoms carry the first two statistics under exchanged names, so that the
+        # parent -> child parameter maps of a product are not the identity
+        self.swap = bool(swap)
         super().__init__(**kw)
+
+    def _atom_stats(self, c, word):
+        stats = list(atom_stats(c, word, self.drop))
+        if self.swap and len(c.stats) >= 2 and len(stats) == len(c.stats):
+            (k0, l0), (k1, l1) = stats[0], stats[1]
+            stats[0], stats[1] = (k0, l1), (k1, l0)
+        return stats
+
+    def _atom_map(self, c, child):
+        if self.swap and len(c.stats) >= 2 and len(child.stats) == len(c.stats):
+            names = [k for k, _ in c.stats]
+            m = {k: k for k in names}
+            m[names[0]], m[names[1]] = names[1], names[0]
+            return m
+        return {k: k for k in child.extra_parameters}
 
     def _pieces(self, c):
         s = safe_index(c)
@@ -298,7 +316,7 @@ class RemoveFront(_Opts, CartesianProductStrategy[WC, W]):
         if pieces is None:
             return None
         atoms, v = pieces
-        kids = [c.with_(prefix=a, just_prefix=True, stats=atom_stats(c, a, self.drop)) for a in atoms]
+        kids = [c.with_(prefix=a, just_prefix=True, stats=self._atom_stats(c, a)) for a in atoms]
         rest = c.with_(prefix=v)
         return tuple([rest] + kids) if self.atom_last else tuple(kids + [rest])
 
@@ -307,10 +325,12 @@ class RemoveFront(_Opts, CartesianProductStrategy[WC, W]):
             children = self.decomposition_function(c)
             if children is None:
                 raise StrategyDoesNotApply("Strategy does not apply")
-        return tuple({k: k for k in ch.extra_parameters} for ch in children)
+        return tuple(self._atom_map(c, ch) if ch.just_prefix else {k: k for k in ch.extra_parameters}
+                     for ch in children)
 
     def formal_step(self):
-        return f"remove front(drop={self.drop},atom_last={self.atom_last},split={self.split})"
+        return (f"remove front(drop={self.drop},atom_last={self.atom_last},split={self.split},"
+                f"swap={self.swap})")
 
     def backward_map(self, c, objs, children=None):
         objs = list(objs)
@@ -599,7 +619,7 @@ class PrefixVerified(VerificationStrategy[WC, W]):
 # ----------------------------------------------------------------------------- packs
 
 PACK_DEFAULTS = {
-    "drop": False, "order": 0, "atom_last": False, "split": False, "plus": False,
+    "drop": False, "order": 0, "atom_last": False, "split": False, "plus": False, "swap": False,
     "sym": False, "inferral": [], "layout": "initial", "factory": None,
     "ver": "stat", "iterative": False,
 }
@@ -617,7 +637,7 @@ def make_pack(opts=None):
     """
     o = dict(PACK_DEFAULTS)
     o.update(opts or {})
-    remove = RemoveFront(drop=o["drop"], atom_last=o["atom_last"], split=o["split"])
+    remove = RemoveFront(drop=o["drop"], atom_last=o["atom_last"], split=o["split"], swap=o["swap"])
     if o["factory"] is None:
         expand = Expand(drop=o["drop"], order=o["order"], plus=o["plus"])
     else:
